@@ -173,13 +173,13 @@ pub fn check_project(p: &Proj, stats: &mut Stats) -> Vec<Failure> {
 }
 
 pub fn run(ctx: &Ctx) {
-    ctx.set_rule("whole projects as in C01 but restricted to the property's precondition (every named type is a project serde type or mapped) and steered around input classes with known syntax defects (counted as excluded_known), so that whole files parse; every reference in types.ts / commands.ts / events.ts is resolved against per-module declaration tables in type space and value space, `types.X` against the exports of types.ts, index.ts against the list of files the run returned. evaluation = one generation run; non-trivial = a project type below a constructor at a parameter / return / channel site");
+    ctx.set_rule("whole projects as in C01 (every named type is a project serde type or mapped; since the syntax defects were repaired no input class is steered around any more); every reference in types.ts / commands.ts / events.ts is resolved against per-module declaration tables in type space and value space, `types.X` against the exports of types.ts, index.ts against the list of files the run returned. evaluation = one generation run; non-trivial = a project type below a constructor at a parameter / return / channel site");
     ctx.set_exhaustive(false);
     ctx.assume("resolution follows the harness's parser and scope model for the emitted fragment");
     let cases = ctx.tier.pick(2500, 40000);
     ctx.search("c02.project", cases, 400, |tape, stats| {
         let mut avoided = 0;
-        let p = random_project(tape, true, &mut avoided);
+        let p = random_project(tape, false, &mut avoided);
         stats.excluded_known += avoided;
         check_project(&p, stats)
     });
@@ -224,7 +224,7 @@ pub fn replay(check: &str, input: &Value, stats: &mut Stats) -> Option<Vec<Failu
         "c02.project" => {
             let mut tape = Tape::new(super::tape_of(input));
             let mut avoided = 0;
-            let p = random_project(&mut tape, true, &mut avoided);
+            let p = random_project(&mut tape, false, &mut avoided);
             Some(check_project(&p, stats))
         }
         "c02.grid" => Some(grid_case(input["wrap"].as_str()?, input["leaf"].as_str()?, input["mode"].as_str()?, stats)),
